@@ -161,6 +161,40 @@ def implies_is_none(cond, pol, param):
     return False
 
 
+def check_mutable_defaults(run, A, module_prefixes=None):
+    """R-STATE: a default argument that is a mutable container (`summary={}`, `cache=[]`, `dict()`) is ONE object shared by all calls.  When the function writes into
+    it or hands it out (returns it, stores it), results of one call show up in - and are changed by - later calls.  Judged for every function of the scope, helpers
+    introduced later included (such a helper cannot be evaluated in place: it has hidden state)."""
+    import ast
+    n = 0
+    prefixes = module_prefixes or SCOPE_MODULES_C20
+    for fn in A.prog.all_funcs():
+        if not any(fn.mod.name == p_.rstrip('.') or fn.mod.name.startswith(p_) for p_ in prefixes):
+            continue
+        for pname, d in fn.defaults.items():
+            mutable = isinstance(d, (ast.Dict, ast.List, ast.Set, ast.DictComp, ast.ListComp, ast.SetComp)) or \
+                (isinstance(d, ast.Call) and isinstance(d.func, ast.Name) and d.func.id in ('dict', 'list', 'set', 'defaultdict', 'OrderedDict', 'bytearray')) or \
+                (isinstance(d, ast.Call) and ast.unparse(d.func).split('.')[-1] in ('zeros', 'ones', 'empty', 'array', 'defaultdict', 'OrderedDict'))
+            if not mutable:
+                continue
+            n += 1
+            used = []
+            for x in ast.walk(fn.node):
+                if isinstance(x, ast.Subscript) and isinstance(x.ctx, (ast.Store, ast.Del)) and isinstance(x.value, ast.Name) and x.value.id == pname:
+                    used.append('written by key / index')
+                elif isinstance(x, ast.AugAssign) and isinstance(x.target, ast.Name) and x.target.id == pname:
+                    used.append('updated in place')
+                elif isinstance(x, ast.Call) and isinstance(x.func, ast.Attribute) and isinstance(x.func.value, ast.Name) and x.func.value.id == pname and \
+                        x.func.attr in ('append', 'extend', 'insert', 'update', 'setdefault', 'add', 'pop', 'popitem', 'remove', 'clear', 'sort', 'fill'):
+                    used.append(f'.{x.func.attr}()')
+                elif isinstance(x, ast.Return) and isinstance(x.value, ast.Name) and x.value.id == pname:
+                    used.append('returned')
+            run.check(not used, 'R-STATE', f'{fn.qual}: mutable default `{pname}` is not written or handed out', fn.loc(), '',
+                      f'`{pname}={ast.unparse(d)}` is one object for all calls and is {", ".join(sorted(set(used)))}: what one call puts into it is seen (and overwritten) by the next',
+                      construct=f'R-STATE::{fn.qual}::mutable-default::{pname}')
+    run.count('mutable default arguments examined', n)
+
+
 def check_state(run, A):
     prog, ev = A.prog, A.ev
     scope = public_callables(prog, SCOPE_MODULES_C20, include_private=True)
@@ -428,5 +462,6 @@ def check(run):
                        'the Cython extensions (.pyx) are not built on this image and not analysed']
     check_mut(run, A)
     check_state(run, A)
+    check_mutable_defaults(run, A)
     rng_and_nondet(run, A)
     check_loop_continuation(run, A)
